@@ -193,7 +193,21 @@ impl WriteSource for pr::ExprKind {
             FuncCall(func_call) => {
                 let mut r = String::new();
 
-                let name = write_within(func_call.name.as_ref(), self, opt.clone())?;
+                // the callee and the values of named arguments are written at the strength of a call, like
+                // the positional arguments -- but unlike those they cannot carry a bare alias
+                let no_alias = |node: &pr::Expr, opt: &WriteOpt| {
+                    let mut opt = opt.clone();
+                    if node.alias.is_some() {
+                        opt.context_strength = opt.context_strength.max(11);
+                    }
+                    opt
+                };
+
+                let name = write_within(
+                    func_call.name.as_ref(),
+                    self,
+                    no_alias(func_call.name.as_ref(), &opt),
+                )?;
                 r += opt.consume(&name)?;
                 opt.unbound_expr = true;
 
@@ -206,7 +220,7 @@ impl WriteSource for pr::ExprKind {
 
                     r += opt.consume(":")?;
 
-                    let arg = write_within(arg, self, opt.clone())?;
+                    let arg = write_within(arg, self, no_alias(arg, &opt))?;
                     r += opt.consume(&arg)?;
                 }
                 for arg in &func_call.args {
